@@ -279,7 +279,7 @@ Proof.
   - exact (st_addw_spec (SD d) i w1 H Hi w1_nonneg).
   - destruct (st_addw_spec (SS m) i w1 H Hi w1_nonneg) as (s' & E & R).
     exists s'. split; [|exact R]. cbn [st_add st_addw] in *. rewrite <- E.
-    rewrite sp_add_badd, sp_add_with_count_badd0. reflexivity.
+    rewrite sp_add_badd. reflexivity.
   - pose proof H as H0. cbn [StInv] in H0.
     destruct (p_add_abs pgrow8 worth32 x_full ZSort.sort x_pgrow_ok x_sort_ok p i H0 Hi) as [I' A].
     eexists. split; [reflexivity|].
@@ -373,4 +373,349 @@ Proof.
     exists (SP p'), k. split; [reflexivity|].
     assert (I2 : StInv (SP p')) by exact I'. split; [exact I2|]. split; [reflexivity|].
     rewrite (st_abs_content _ I2), (st_abs_content _ H). cbn [st_content]. split; [exact A|exact K].
+Qed.
+
+(* ================================================================== *)
+(** * 4. MergeWith, all 25 kind pairs                                  *)
+(* ================================================================== *)
+Lemma smerge_list_exact_eq a xs : smerge_list Exact a xs = bmerge_list a xs.
+Proof. reflexivity. Qed.
+Lemma smerge_list_nil_r l a : smerge_list l a [] = a.
+Proof. reflexivity. Qed.
+Lemma smerge_list_cons_eq l a k c xs : smerge_list l a ((k, c) :: xs) = smerge_list l (sadd l a k c) xs.
+Proof. reflexivity. Qed.
+
+Lemma st_add_list_cons s kw l :
+  st_add_list s (kw :: l) =
+  match st_addw s (fst kw) (snd kw) with Some s1 => st_add_list s1 l | None => None end.
+Proof.
+  unfold st_add_list. cbn [fold_left]. destruct (st_addw s (fst kw) (snd kw)); [reflexivity|].
+  induction l as [|x l IH]; [reflexivity|exact IH].
+Qed.
+
+(* the generic path: a sequence of AddWithCount over any list of (int32 index, weight >= 0) *)
+Theorem st_add_list_spec l : forall s,
+  StInv s -> bins_ok l ->
+  exists s', st_add_list s l = Some s' /\ StInv s' /\ st_kind s' = st_kind s /\
+             st_abs s' = smerge_list (st_limit s) (st_abs s) l.
+Proof.
+  induction l as [|[k w] l IH]; intros s H Hl.
+  - exists s. split; [reflexivity|]. split; [exact H|]. split; reflexivity.
+  - apply bins_ok_cons in Hl. destruct Hl as [[Hk Hw] Hl].
+    destruct (st_addw_spec s k w H Hk Hw) as (s1 & E1 & I1 & K1 & A1).
+    destruct (IH s1 I1 Hl) as (s' & E' & I' & K' & A').
+    exists s'. rewrite st_add_list_cons. cbn [fst snd]. rewrite E1.
+    split; [exact E'|]. split; [exact I'|]. split; [congruence|].
+    rewrite A', smerge_list_cons_eq, A1. rewrite !st_limit_kind, K1. reflexivity.
+Qed.
+
+(* the fallback of MergeWith: ForEach on the argument, AddWithCount on the receiver *)
+Lemma st_merge_fallback s o :
+  StInv s -> StInv o ->
+  exists s' o',
+    match st_foreach o with
+    | None => None
+    | Some (o', l) => option_map (fun s' => (s', o')) (st_add_list s l)
+    end = Some (s', o') /\
+    StInv s' /\ StInv o' /\ st_kind s' = st_kind s /\ st_kind o' = st_kind o /\
+    st_abs s' = smerge_list (st_limit s) (st_abs s) (st_abs o) /\ st_abs o' = st_abs o.
+Proof.
+  intros H Ho. destruct (st_foreach_spec o Ho) as (o' & l & E & Io' & Ko' & Ao' & El & _). subst l.
+  destruct (st_add_list_spec (st_abs o) s H (st_abs_bins_ok o Ho)) as (s' & E' & I' & K' & A').
+  exists s', o'. rewrite E, E'. cbn [option_map]. auto 10.
+Qed.
+
+(* an argument of the dense family, whatever its Go type and capacity, through whichever path
+   (same-type fast path, or ForEach + AddWithCount) the code takes *)
+Lemma WInv_exact_Inv o : WInv o -> lim o = Exact -> Inv o.
+Proof.
+  intros I L. destruct I as [a b c d e f g h]. constructor; auto.
+Qed.
+Lemma merge_dense_any d o :
+  StInv (SD d) -> WInv o ->
+  exists d', merge_dense grow63 true d o = Some d' /\ StInv (SD d') /\ lim d' = lim d /\
+             dabs d' = smerge_list (lim d) (dabs d) (dabs o).
+Proof.
+  intros H Wo. destruct (StInv_SD_cases d H) as [[L I]|[(n & L & Hn & C)|(n & L & Hn & C)]].
+  - rewrite L, smerge_list_exact_eq.
+    assert (G : exists d', merge_dense grow63 true d o = Some d' /\ Inv d' /\ dabs d' = bmerge_list (dabs d) (dabs o)).
+    { destruct (is_empty o) eqn:E.
+      - exists d. unfold merge_dense. rewrite E. apply is_empty_true in E.
+        rewrite (dabs_empty_winv o Wo E). split; [reflexivity|]. split; [exact I|reflexivity].
+      - destruct (same_type (lim d) (lim o)) eqn:T.
+        + assert (Lo : lim o = Exact). { rewrite L in T. destruct (lim o); [reflexivity|discriminate|discriminate]. }
+          exact (merge_dense_spec grow63 true x_grow_ok d o I (WInv_exact_Inv o Wo Lo)).
+        + exact (merge_dense_fallback grow63 true x_grow_ok d o (dabs o) I E T (foreach_winv o Wo) (dabs_bins_ok o Wo)). }
+    destruct G as (d' & E & I' & A). exists d'. split; [exact E|]. split; [now apply StInv_exact|].
+    split; [apply (inv_lim d' I')|exact A].
+  - destruct (merge_dense_low_stepwise grow63 x_grow_ok n Hn d o C L Wo) as (d' & E & C' & L' & A).
+    exists d'. split; [exact E|]. split; [now apply (StInv_low d' n)|]. split; [congruence|]. rewrite L. exact A.
+  - destruct (merge_dense_high_stepwise grow63 x_grow_ok n Hn d o C L Wo) as (d' & E & C' & L' & A).
+    exists d'. split; [exact E|]. split; [now apply (StInv_high d' n)|]. split; [congruence|]. rewrite L. exact A.
+Qed.
+
+(* s.MergeWith(o) for every pair of kinds: no panic; the receiver absorbs the content of the
+   argument bin by bin with its own normal form (= the exact merge, re-normalised: st_merge_norm);
+   the argument keeps its content (ForEach may have sorted the buffer of a paginated argument) *)
+Theorem st_merge_spec s o :
+  StInv s -> StInv o ->
+  exists s' o', st_merge s o = Some (s', o') /\
+    StInv s' /\ StInv o' /\ st_kind s' = st_kind s /\ st_kind o' = st_kind o /\
+    st_abs s' = smerge_list (st_limit s) (st_abs s) (st_abs o) /\ st_abs o' = st_abs o.
+Proof.
+  intros H Ho.
+  assert (Empty : st_is_empty o = true ->
+    exists s' o', Some (s, o) = Some (s', o') /\
+      StInv s' /\ StInv o' /\ st_kind s' = st_kind s /\ st_kind o' = st_kind o /\
+      st_abs s' = smerge_list (st_limit s) (st_abs s) (st_abs o) /\ st_abs o' = st_abs o).
+  { intros E. apply (st_is_empty_true o Ho) in E. exists s, o. rewrite E, smerge_list_nil_r. auto 10. }
+  destruct s as [d|m|p]; destruct o as [d2|m2|p2]; cbn [st_merge].
+  - (* dense family <- dense family *)
+    destruct (merge_dense_any d d2 H (StInv_SD_winv d2 Ho)) as (d' & E & I' & L' & A).
+    exists (SD d'), (SD d2). rewrite E. cbn [option_map]. split; [reflexivity|]. split; [exact I'|].
+    split; [exact Ho|]. split; [cbn [st_kind]; now rewrite L'|]. split; [reflexivity|]. split; [|reflexivity].
+    rewrite (st_abs_content _ I'), (st_abs_content _ H), (st_abs_content _ Ho). exact A.
+  - destruct (st_is_empty (SS m2)) eqn:E; [now apply Empty|now apply st_merge_fallback].
+  - destruct (st_is_empty (SP p2)) eqn:E; [now apply Empty|now apply st_merge_fallback].
+  - now apply st_merge_fallback.
+  - now apply st_merge_fallback.
+  - now apply st_merge_fallback.
+  - now apply st_merge_fallback.
+  - now apply st_merge_fallback.
+  - (* paginated <- paginated *)
+    pose proof H as H0. pose proof Ho as Ho0. cbn [StInv] in H0, Ho0.
+    destruct (p_merge_same_spec pgrow8 worth32 x_full ZSort.sort x_pgrow_ok x_sort_ok p p2 H0 Ho0) as [I' A].
+    eexists. eexists. split; [reflexivity|].
+    assert (I2 : StInv (SP (p_merge_same pgrow8 worth32 x_full ZSort.sort p p2))) by exact I'.
+    split; [exact I2|]. split; [exact Ho|]. split; [reflexivity|]. split; [reflexivity|]. split; [|reflexivity].
+    rewrite (st_abs_content _ I2), (st_abs_content _ H), (st_abs_content _ Ho). cbn [st_content st_limit].
+    rewrite smerge_list_exact_eq. exact A.
+Qed.
+Corollary st_merge_no_panic s o : StInv s -> StInv o -> st_merge s o <> None.
+Proof. intros H Ho. destruct (st_merge_spec s o H Ho) as (s' & o' & E & _). rewrite E. discriminate. Qed.
+
+(* the stepwise form is the exact merge followed by the receiver's normal form *)
+Theorem smerge_list_st_norm s xs :
+  StInv s -> nonneg xs ->
+  smerge_list (st_limit s) (st_abs s) xs = norm (st_limit s) (bmerge_list (st_abs s) xs).
+Proof.
+  intros H Hx. rewrite <- (st_abs_norm s H) at 1.
+  apply smerge_list_norm; [now apply StInv_limit_ok|now apply st_abs_wf|now apply st_abs_pos|exact Hx].
+Qed.
+Theorem st_merge_norm s o :
+  StInv s -> StInv o ->
+  exists s' o', st_merge s o = Some (s', o') /\
+    StInv s' /\ StInv o' /\ st_kind s' = st_kind s /\ st_kind o' = st_kind o /\
+    st_abs s' = norm (st_limit s) (bmerge (st_abs s) (st_abs o)) /\ st_abs o' = st_abs o.
+Proof.
+  intros H Ho. destruct (st_merge_spec s o H Ho) as (s' & o' & E & I' & Io' & K & Ko & A & Ao).
+  exists s', o'. rewrite A. rewrite (smerge_list_st_norm s (st_abs o) H) by (apply pos_nonneg; now apply st_abs_pos).
+  auto 10.
+Qed.
+
+(* ================================================================== *)
+(** * 5. Reweight, Clear, Copy                                         *)
+(* ================================================================== *)
+Theorem st_reweight_refused s w : (w <= w0)%Qc -> st_reweight s w = RwRefused.
+Proof.
+  intros Hw. destruct s as [d|m|p]; cbn [st_reweight].
+  - now rewrite (reweight_d_refused d w Hw).
+  - unfold sp_reweight. apply wleb_le in Hw. now rewrite Hw.
+  - now rewrite (p_reweight_refused pgrow8 worth32 x_full ZSort.sort p w Hw).
+Qed.
+Theorem st_reweight_one s : st_reweight s w1 = RwOk s.
+Proof.
+  destruct s as [d|m|p]; cbn [st_reweight].
+  - now rewrite reweight_d_one.
+  - unfold sp_reweight. destruct (wleb_spec w1 w0) as [Hle|_].
+    + exfalso. pose proof w1_pos as P. eapply Qclt_not_le; eauto.
+    + now rewrite weqb_refl.
+  - now rewrite p_reweight_one.
+Qed.
+(* w > 0 (w = 1 included, where the content is unchanged): no panic, the content is scaled *)
+Theorem st_reweight_spec s w :
+  StInv s -> (w0 < w)%Qc ->
+  exists s', st_reweight s w = RwOk s' /\ StInv s' /\ st_kind s' = st_kind s /\
+             st_abs s' = bscale w (st_abs s).
+Proof.
+  intros H Hw.
+  assert (G : exists s', st_reweight s w = RwOk s' /\ StInv s' /\ st_kind s' = st_kind s /\
+                         st_content s' = bscale w (st_content s)).
+  { destruct s as [d|m|p]; cbn [st_reweight st_content].
+    - destruct (StInv_SD_cases d H) as [[L I]|[(n & L & Hn & C)|(n & L & Hn & C)]].
+      + destruct (reweight_d_spec d w I Hw) as (d' & E & I' & A). exists (SD d'). rewrite E.
+        split; [reflexivity|]. split; [now apply StInv_exact|]. cbn [st_kind st_content].
+        rewrite (inv_lim d' I'), L. auto.
+      + destruct (reweight_ci n d w C Hw) as (d' & E & C' & L' & _ & A). exists (SD d'). rewrite E.
+        split; [reflexivity|]. split; [apply (StInv_low d' n); congruence|]. cbn [st_kind st_content].
+        rewrite L'. auto.
+      + destruct (reweight_ci n d w C Hw) as (d' & E & C' & L' & _ & A). exists (SD d'). rewrite E.
+        split; [reflexivity|]. split; [apply (StInv_high d' n); congruence|]. cbn [st_kind st_content].
+        rewrite L'. auto.
+    - destruct H as (Hwf & Hp & Hk). exists (SS (bscale w m)). split.
+      + unfold sp_reweight. destruct (wleb_spec w w0) as [Hle|_]; [exfalso; eapply Qclt_not_le; eauto|].
+        destruct (weqb_spec w w1) as [E1|_]; [subst w; now rewrite bscale_1|reflexivity].
+      + cbn [StInv st_kind st_content]. split; [|auto]. split; [now apply wf_bscale|].
+        split; [now apply pos_bscale|now apply keys_ok_bscale].
+    - pose proof H as H0. cbn [StInv] in H0.
+      destruct (p_reweight_spec pgrow8 worth32 x_full ZSort.sort x_pgrow_ok x_sort_ok p w H0 Hw) as (p' & E & I' & A).
+      exists (SP p'). rewrite E. cbn [StInv st_kind st_content]. auto. }
+  destruct G as (s' & E & I' & K & A). exists s'.
+  rewrite (st_abs_content s' I'), (st_abs_content s H). auto.
+Qed.
+Corollary st_reweight_no_panic s w : StInv s -> st_reweight s w <> RwPanic.
+Proof.
+  intros H. destruct (Qclt_le_dec w0 w) as [Hw|Hw].
+  - destruct (st_reweight_spec s w H Hw) as (s' & E & _). rewrite E. discriminate.
+  - rewrite (st_reweight_refused s w Hw). discriminate.
+Qed.
+
+Theorem st_clear_spec s :
+  StInv s -> StInv (st_clear s) /\ st_kind (st_clear s) = st_kind s /\ st_abs (st_clear s) = [].
+Proof.
+  intros H.
+  assert (G : StInv (st_clear s) /\ st_kind (st_clear s) = st_kind s /\ st_content (st_clear s) = []).
+  { destruct s as [d|m|p]; cbn [st_clear st_content].
+    - destruct (StInv_SD_cases d H) as [[L I]|[(n & L & Hn & C)|(n & L & Hn & C)]].
+      + destruct (clear_d_spec d L) as [I' A]. split; [now apply StInv_exact|]. split; [reflexivity|exact A].
+      + destruct (clear_ci n d ltac:(lia)) as (C' & L' & _ & A).
+        split; [apply (StInv_low _ n); congruence|]. split; [reflexivity|exact A].
+      + destruct (clear_ci n d ltac:(lia)) as (C' & L' & _ & A).
+        split; [apply (StInv_high _ n); congruence|]. split; [reflexivity|exact A].
+    - unfold sp_clear. cbn [StInv st_kind]. split; [|auto]. split; [reflexivity|]. split; [constructor|apply keys_ok_nil].
+    - pose proof H as H0. cbn [StInv] in H0. destruct (p_clear_spec p H0) as [I' A].
+      cbn [StInv st_kind]. auto. }
+  destruct G as (I' & K & A). rewrite (st_abs_content _ I'). auto.
+Qed.
+
+(* a cleared store cannot be told from a new store of the same kind (retained offset, recycled
+   pages, stale compaction trigger and isCollapsed never leak): same content after any additions *)
+Theorem st_clear_like_new s l :
+  StInv s -> bins_ok l ->
+  exists s1 s2, st_add_list (st_clear s) l = Some s1 /\ st_add_list (st_new (st_kind s)) l = Some s2 /\
+                StInv s1 /\ StInv s2 /\ st_kind s1 = st_kind s /\ st_kind s2 = st_kind s /\
+                st_abs s1 = st_abs s2.
+Proof.
+  intros H Hl. destruct (st_clear_spec s H) as (Ic & Kc & Ac).
+  pose proof (StInv_new (st_kind s) (StInv_kind_ok s H)) as In.
+  destruct (st_add_list_spec l _ Ic Hl) as (s1 & E1 & I1 & K1 & A1).
+  destruct (st_add_list_spec l _ In Hl) as (s2 & E2 & I2 & K2 & A2).
+  exists s1, s2. rewrite st_kind_new in K2.
+  split; [exact E1|]. split; [exact E2|]. split; [exact I1|]. split; [exact I2|].
+  split; [congruence|]. split; [exact K2|].
+  rewrite A1, A2, Ac, st_abs_new, !st_limit_kind, Kc, st_kind_new. reflexivity.
+Qed.
+
+Theorem st_copy_spec s : st_copy s = s.
+Proof. reflexivity. Qed.
+
+(* ================================================================== *)
+(** * 6. Histories                                                     *)
+(* ================================================================== *)
+Inductive sop :=
+| OpAddW (i : Z) (c : W) | OpAdd (i : Z) | OpMerge (o : store) | OpReweight (w : W) | OpClear
+| OpForeach | OpKeyAtRank (r : W) | OpCopy.
+Definition sop_ok (x : sop) : Prop :=
+  match x with
+  | OpAddW i c => idx_ok i /\ (w0 <= c)%Qc
+  | OpAdd i => idx_ok i
+  | OpMerge o => StInv o
+  | OpReweight w => (w0 < w)%Qc
+  | _ => True
+  end.
+(* [None] = a panic, or a refused Reweight *)
+Definition st_step (s : store) (x : sop) : option store :=
+  match x with
+  | OpAddW i c => st_addw s i c
+  | OpAdd i => st_add s i
+  | OpMerge o => option_map fst (st_merge s o)
+  | OpReweight w => match st_reweight s w with RwOk s' => Some s' | _ => None end
+  | OpClear => Some (st_clear s)
+  | OpForeach => option_map fst (st_foreach s)
+  | OpKeyAtRank r => Some (fst (st_key_at_rank s r))
+  | OpCopy => Some (st_copy s)
+  end.
+Definition st_run (s : store) (ops : list sop) : option store :=
+  fold_left (fun acc x => match acc with Some s' => st_step s' x | None => None end) ops (Some s).
+(* the same history on the Layer A content of a store of limit l; reads are the identity *)
+Definition abs_step (l : limit) (b : list (Z * W)) (x : sop) : list (Z * W) :=
+  match x with
+  | OpAddW i c => sadd l b i c
+  | OpAdd i => sadd l b i w1
+  | OpMerge o => smerge_list l b (st_abs o)
+  | OpReweight w => bscale w b
+  | OpClear => []
+  | _ => b
+  end.
+Definition abs_run (l : limit) (b : list (Z * W)) (ops : list sop) : list (Z * W) := fold_left (abs_step l) ops b.
+Definition sop_is_read (x : sop) : bool :=
+  match x with OpForeach | OpKeyAtRank _ | OpCopy => true | _ => false end.
+
+Theorem st_step_spec s x :
+  StInv s -> sop_ok x ->
+  exists s', st_step s x = Some s' /\ StInv s' /\ st_kind s' = st_kind s /\
+             st_abs s' = abs_step (st_limit s) (st_abs s) x.
+Proof.
+  intros H Hx. destruct x as [i c|i|o|w| | |r| ]; cbn [sop_ok st_step abs_step] in *.
+  - destruct Hx as [Hi Hc]. now apply st_addw_spec.
+  - now apply st_add_spec.
+  - destruct (st_merge_spec s o H Hx) as (s' & o' & E & I' & _ & K & _ & A & _).
+    exists s'. rewrite E. cbn [option_map fst]. auto.
+  - destruct (st_reweight_spec s w H Hx) as (s' & E & I' & K & A). exists s'. rewrite E. auto.
+  - exists (st_clear s). destruct (st_clear_spec s H) as (I' & K & A). auto.
+  - destruct (st_foreach_spec s H) as (s' & l & E & I' & K & A & _). exists s'. rewrite E. cbn [option_map fst]. auto.
+  - destruct (st_key_at_rank_spec s r H) as (s' & k & E & I' & K & A & _). exists s'. rewrite E. cbn [fst]. auto.
+  - exists s. auto.
+Qed.
+(* reads leave the content unchanged (C14 at store level) *)
+Theorem st_reads_pure s x :
+  StInv s -> sop_is_read x = true ->
+  exists s', st_step s x = Some s' /\ StInv s' /\ st_kind s' = st_kind s /\ st_abs s' = st_abs s.
+Proof.
+  intros H Hr. destruct x; try discriminate; refine (st_step_spec s _ H _); exact I.
+Qed.
+
+Lemma st_run_cons s x ops :
+  st_run s (x :: ops) = match st_step s x with Some s1 => st_run s1 ops | None => None end.
+Proof.
+  unfold st_run. cbn [fold_left]. destruct (st_step s x); [reflexivity|].
+  induction ops as [|y ops IH]; [reflexivity|exact IH].
+Qed.
+Theorem st_run_spec ops : forall s,
+  StInv s -> Forall sop_ok ops ->
+  exists s', st_run s ops = Some s' /\ StInv s' /\ st_kind s' = st_kind s /\
+             st_abs s' = abs_run (st_limit s) (st_abs s) ops.
+Proof.
+  induction ops as [|x ops IH]; intros s H Hops.
+  - exists s. auto.
+  - inversion Hops as [|x' ops' Hx Hops']; subst x' ops'.
+    destruct (st_step_spec s x H Hx) as (s1 & E1 & I1 & K1 & A1).
+    destruct (IH s1 I1 Hops') as (s' & E' & I' & K' & A').
+    exists s'. rewrite st_run_cons, E1. split; [exact E'|]. split; [exact I'|]. split; [congruence|].
+    rewrite A'. unfold abs_run. cbn [fold_left]. rewrite A1, !st_limit_kind, K1. reflexivity.
+Qed.
+
+(* every store reachable from a new store of any kind (capacity >= 1) by any sequence of the
+   interface operations satisfies the invariant, never panicked on the way, is of the same kind,
+   and its content is the Layer A content of the same sequence *)
+Theorem st_reachable k ops :
+  kind_ok k -> Forall sop_ok ops ->
+  exists s, st_run (st_new k) ops = Some s /\ StInv s /\ st_kind s = k /\
+            st_abs s = abs_run (kind_limit k) [] ops.
+Proof.
+  intros Hk Hops. destruct (st_run_spec ops (st_new k) (StInv_new k Hk) Hops) as (s & E & I' & K & A).
+  exists s. rewrite st_kind_new in K. rewrite st_limit_new, st_abs_new in A. auto.
+Qed.
+(* Clear then any history = a new store then the same history (C15 at store level) *)
+Theorem st_clear_then_history s ops :
+  StInv s -> Forall sop_ok ops ->
+  exists s1 s2, st_run (st_clear s) ops = Some s1 /\ st_run (st_new (st_kind s)) ops = Some s2 /\
+                StInv s1 /\ StInv s2 /\ st_kind s1 = st_kind s /\ st_kind s2 = st_kind s /\
+                st_abs s1 = st_abs s2.
+Proof.
+  intros H Hops. destruct (st_clear_spec s H) as (Ic & Kc & Ac).
+  destruct (st_run_spec ops _ Ic Hops) as (s1 & E1 & I1 & K1 & A1).
+  destruct (st_reachable (st_kind s) ops (StInv_kind_ok s H) Hops) as (s2 & E2 & I2 & K2 & A2).
+  exists s1, s2. split; [exact E1|]. split; [exact E2|]. split; [exact I1|]. split; [exact I2|].
+  split; [congruence|]. split; [exact K2|]. rewrite A1, A2, Ac, st_limit_kind, Kc. reflexivity.
 Qed.
